@@ -7,7 +7,9 @@ import os
 HERE = os.path.dirname(os.path.dirname(os.path.abspath(__file__)))
 
 TRUST = ('Trusted base: CPython 3.12, numpy/scipy, the loop-based reference models in gmv/ref.py and the '
-         'generators in gmv/gen.py. Passing means "held on the executions described in the evidence file", not a proof.')
+         'generators in gmv/gen.py. Passing means "held on the executions described in the evidence file", not a proof. '
+         'Every run also repeats a sample of its cases in an interpreter without assert statements (PYTHONOPTIMIZE=1) and runs '
+         'half of its cases with a terminal-like stdout (DESIGN.md section 2.7).')
 
 CHECKS = {
     'C01': ('exploration', 'reference-model contract (anchor-and-scale law) on ExchangeMap.__call__',
